@@ -23,11 +23,13 @@ var c13BodySchemas = map[string]J{
 		"m": J{"type": "object", "additionalProperties": J{"type": "integer"}}}},
 	"list": {"type": "array", "items": J{"type": "object", "properties": J{"a": J{"type": "string"}}}},
 	"str":  {"type": "string"},
+	"dict": {"type": "object", "additionalProperties": J{"type": "integer"}},
 }
 
 type c13BodyOp struct {
-	ID     string
-	Bodies []struct{ Media, Schema string }
+	ID       string
+	Optional bool // requestBody.required: false
+	Bodies   []struct{ Media, Schema string }
 }
 
 func c13BodyOps() []c13BodyOp {
@@ -58,6 +60,10 @@ func c13BodyOps() []c13BodyOp {
 	// several media types on one operation
 	add("BAll", [2]string{"application/json", "flat"}, [2]string{"application/vnd.api+json", "nested"}, [2]string{"application/x-www-form-urlencoded", "flat"}, [2]string{"text/plain", "str"})
 	add("BTwoVendor", [2]string{"application/vnd.api+json", "flat"}, [2]string{"application/merge-patch+json", "flat"})
+	// bodies that are not required, of types whose Go value can be nil (slice, map): a nil value is sent as null
+	add("BOptList", [2]string{"application/json", "list"})
+	add("BOptDict", [2]string{"application/json", "dict"}, [2]string{"application/vnd.api+json", "dict"})
+	ops[len(ops)-1].Optional, ops[len(ops)-2].Optional = true, true
 	return ops
 }
 
@@ -68,7 +74,7 @@ func c13BodyDoc(ops []c13BodyOp) J {
 		for _, b := range o.Bodies {
 			content[b.Media] = J{"schema": J{"$ref": "#/components/schemas/" + strings.Title(b.Schema)}}
 		}
-		paths["/"+strings.ToLower(o.ID)] = J{"post": J{"operationId": o.ID, "requestBody": J{"required": true, "content": content},
+		paths["/"+strings.ToLower(o.ID)] = J{"post": J{"operationId": o.ID, "requestBody": J{"required": !o.Optional, "content": content},
 			"responses": J{"204": J{"description": "d"}}}}
 	}
 	schemas := J{}
@@ -119,6 +125,12 @@ func c13BodyValue(r *Rng, schema string) interface{} {
 			v["m"] = m
 		}
 		return v
+	case "dict":
+		m := J{}
+		for i := r.Intn(3); i > 0; i-- {
+			m["k"+c13BodyText(r)] = r.Intn(100)
+		}
+		return m
 	case "list":
 		xs := []interface{}{}
 		for i := r.Intn(4); i > 0; i-- {
@@ -182,6 +194,10 @@ func c13Bodies(ctx *Ctx, kit *RunKit) (func() error, error) {
 				for i := 0; i < reps; i++ {
 					r := ctx.Rng.Fork()
 					val := c13BodyValue(r, b.Schema)
+					if o.Optional && i%2 == 0 {
+						val = nil // a nil slice / map
+						ctx.Res.Count("run:request-body:nil-value-of-an-optional-body")
+					}
 					raw, _ := json.Marshal(val)
 					resp, err := p.Call(J{"do": "client", "fn": fn, "args": []interface{}{"http://h", json.RawMessage(raw)}})
 					if err != nil {
